@@ -595,6 +595,12 @@ func (p *twkbParser) nextGeometryCollection() (GeometryCollection, error) {
 			return GeometryCollection{}, err
 		}
 		p.pos += nbytes // Sub-parser's geometry has been read, so ensure it is skipped.
+		if g.IsEmpty() {
+			// Empty geometries don't record their dimensionality, so they
+			// take on that of the collection. Otherwise an empty member
+			// would strip Z and M from all of its siblings.
+			g = g.ForceCoordinatesType(p.ctype)
+		}
 		geoms = append(geoms, g)
 	}
 	return NewGeometryCollection(geoms), nil
